@@ -412,4 +412,11 @@ def r8_constructors(ctx):
         o["rule"] = "R8"
 
 
-RULES = [("R1", r1_sets), ("R2", r2_inverse), ("R2b", r2b_copy_discipline), ("R3", r3_borrowed), ("R4", r4_pairing), ("R5", r5_charref), ("R6", r6_unescape_copies), ("R7", r7_escaped_is_utf8), ("R8", r8_constructors)]
+def r9_decoder_keeps_everything(ctx):
+    """reading a payload back goes through Decoder::decode: it must decode all of the bytes it is given (C17 R7
+    re-evaluated: a payload starting with U+FEFF keeps it)"""
+    import c17
+    c17.r7_decodes_all_of_it(ctx, "R9")
+
+
+RULES = [("R1", r1_sets), ("R2", r2_inverse), ("R2b", r2b_copy_discipline), ("R3", r3_borrowed), ("R4", r4_pairing), ("R5", r5_charref), ("R6", r6_unescape_copies), ("R7", r7_escaped_is_utf8), ("R8", r8_constructors), ("R9", r9_decoder_keeps_everything)]
